@@ -57,7 +57,7 @@ CHECKS = {
          "For every (reachable state, call) the implementation's outcome must be the DOM Level 1 effect computed by the reference tree or one of the exception classes DOM Level 1 allows there; a failed call must leave tree, order-key ranks and serialization unchanged; a panic is a violation.",
          "Trusts mc/src/model/dom.rs (Appendix B of DESIGN.md) incl. its leniencies where DOM Level 1 is silent; errors are mapped to DOM classes leniently.",
          "DESIGN.md §5 C13"),
- "C14": ("explicit-state BFS over edit histories; after every state-changing transition (1) order keys strictly increase along the harness's own pre-order walk and (2) 30 node-set queries select the same positions on the edited document as on a fresh parse of its serialization (differential, no expected values) and (3) the transition is repeated on a copy that was queried before the edit with one kept evaluation context: 9 queries must then select what they select on the copy never queried before",
+ "C14": ("explicit-state BFS over edit histories; after every state-changing transition (1) order keys strictly increase along the harness's own pre-order walk and (2) 32 node-set queries select the same positions on the edited document as on a fresh parse of its serialization (differential, no expected values) and (3) the transition is repeated on a copy that was queried before the edit with one kept evaluation context: 9 queries must then select what they select on the copy never queried before",
          "Order-key monotonicity, query agreement with the re-parsed serialization and independence from queries evaluated before the edit (also when namespace declarations are set / removed above prefixed elements) are evaluated in every reached state of the bounded search and attributed to the transition that breaks them.",
          "Positions are compared on a walk that merges adjacent Text nodes and drops empty ones (what a re-parse produces); positional queries are compared only in states without adjacent/empty Text nodes; states whose serialization does not re-parse are C15's concern.",
          "DESIGN.md §5 C14"),
